@@ -825,7 +825,10 @@ def init_case(draw, nv, nl, routes=("dict", "dict", "alt", "alt", "empty", "free
     if route == "empty":
         return dict(route="empty", start=[], noargs=draw(st.booleans()))
     if route == "free":
-        gens = draw(st.sampled_from([["a"], ["a", "b"], ["b", "c"], ["a", "b", "c"]]))
+        # (a generating set may name a generator by its capital letter: 'aB' generates the
+        # same free group, with B the generator and b its inverse)
+        gens = draw(st.sampled_from([["a"], ["a", "b"], ["b", "c"], ["a", "b", "c"],
+                                     ["a", "B"], ["B"], ["A", "B"], ["x", "Y", "z"]]))
         return dict(route="free", gens=gens, as_string=draw(st.booleans()))
     if route == "builtin":
         return dict(route="builtin", name=draw(st.sampled_from(SMALL_BUILTINS)))
